@@ -224,6 +224,11 @@ func RunDyn(s Dyn) mon.Result {
 	if d == nil {
 		return mon.Result{Verdict: mon.Inconclusive, Detail: "harness: dynamic session needs a network driver"}
 	}
+	if s.Source == "asset" {
+		if v := checkOverlap(label, d.PrivilegeLevels, prompts); v != nil {
+			return *v
+		}
+	}
 	if d.DefaultDesiredPriv != effDefault {
 		return viol("c17/user-option-lost:"+label+":default-desired-priv", "driver DefaultDesiredPriv is %q, the user asked for %q (definition: %q)", d.DefaultDesiredPriv, effDefault, eff.Default)
 	}
@@ -468,4 +473,61 @@ func tailEvents(l []devsim.Event, n int) []devsim.Event {
 		}
 	}
 	return l
+}
+
+// RunOverlap is an observation, not a judgement: a fresh driver (empty cached level) is opened on
+// a device that already is in level s.Start, whose canonical prompt the default desired level's
+// pattern accepts as well (a pinned overlap). The evidence records what happens.
+func RunOverlap(s Dyn) mon.Result {
+	label := s.label()
+	st := &devStats{}
+	dev := &devsim.CLI{}
+	conn := devsim.NewConn(dev, devsim.Config{Seg: s.Seg, KeepData: true})
+	defer conn.Abandon()
+	ld, v := loadByName(s.Platform, conn, options.WithAuthSecondary(secret), options.WithTimeoutOps(30*time.Second))
+	if v != nil {
+		return *v
+	}
+	prompts := canon[s.Platform].Levels
+	known := map[string]bool{}
+	for _, sec := range [][]step{ld.eff.NetOnOpen, ld.eff.NetOnClose} {
+		for _, e := range sec {
+			if c, ok := e["command"].(string); ok {
+				known[c] = true
+			}
+			if c, ok := e["input"].(string); ok {
+				known[c] = true
+			}
+		}
+	}
+	buildDevice(dev, ld.d.PrivilegeLevels, prompts, known, s.NL, s.Start, st)
+	def := ld.eff.Default
+	err := ld.d.Open()
+	got, mode, _ := snapshotLines(conn, dev, 0)
+	cur := ld.d.CurrentPriv
+	func() {
+		done := make(chan struct{})
+		go func() { defer func() { recover(); close(done) }(); ld.d.Channel.Close() }()
+		select {
+		case <-done:
+		case <-time.After(5 * time.Second):
+		}
+	}()
+	obs := map[string]int64{"fresh_sessions_on_overlapping_level": 1}
+	tag := fmt.Sprintf("overlap=%s:%s-as-%s:", label, s.Start, def)
+	outcome := "navigated-to-default"
+	switch {
+	case err != nil:
+		outcome = "open-error"
+		obs["fresh_session_on_overlapping_level_open_error"]++
+	case prompts[mode] != prompts[def]:
+		outcome = "misidentified"
+		obs["fresh_session_on_overlapping_level_misidentified"]++
+	}
+	return mon.Result{Verdict: mon.Held, NonTrivial: true, Obs: obs, Tags: []string{tag + outcome},
+		Sample: map[string]interface{}{
+			"definition": label, "device_started_in": s.Start, "prompt": prompts[s.Start], "default_desired_level": def,
+			"open_error": fmt.Sprint(err), "device_mode_after_open": mode, "driver_current_priv_after_open": cur,
+			"lines_device_received_during_open": fmtLines(got), "outcome": outcome,
+		}}
 }
